@@ -263,7 +263,9 @@ func OrdDecSign(p *load.Program) *report.RuleResult {
 				if ff == nil {
 					ff = ssau.ComputeFacts(fn, ssau.StoreKills)
 				}
-				if _, ok := ff.At(bo).Any("false", func(f ssau.Fact) bool { return strings.HasPrefix(f.Path, dec) && strings.HasSuffix(f.Path, ".isNegZero") }); ok {
+				if _, ok := ff.At(bo).Any("false", func(f ssau.Fact) bool {
+					return strings.HasPrefix(f.Path, dec) && strings.HasSuffix(f.Path, ".isNegZero")
+				}); ok {
 					continue
 				}
 				bad = sprintf("%s: the sign of %s is decided from its coefficient (Sign() %s %d) where isNegZero may be true", instrPos(p, bo), dec, bo.Op, k)
